@@ -122,7 +122,7 @@ def generate(r, tier, prop):
             r.shuffle(pool)
             if diamond is not None:
                 # override a member of the common ancestor (preferably one with snapshots) in the most derived class
-                anc = [(m, classes[diamond]["own"][m]["kind"]) for m in sorted(classes[diamond]["own"]) if classes[diamond]["own"][m]["kind"] not in ("alias", "shared")]
+                anc = [(m, classes[diamond]["own"][m]["kind"]) for m in sorted(classes[diamond]["own"]) if classes[diamond]["own"][m]["kind"] not in ("alias", "shared", "prop_ext")]
                 anc.sort(key=lambda x: not classes[diamond]["own"][x[0]]["snaps"])
                 if anc:
                     pool = [anc[0]] + [p for p in pool if p[0] != anc[0][0]]
@@ -144,6 +144,13 @@ def generate(r, tier, prop):
                     ms["wraps"] = True  # a foreign functools.wraps decorator above the contract decorators
                 info["own"][m] = {"pre": ms["pre"], "kind": kind, "snaps": [s["name"] for s in ms.get("snaps", [])], "post": ms["post"]}
                 spec["methods"].append(ms)
+            if bases and r.random() < 0.2:
+                # a property of a base extended with a setter of its own (@Base.p0.setter); the getter stays the base's
+                pc = sorted(m for b in bases for x in mro(b) for m in classes[x]["own"] if classes[x]["own"][m]["kind"] == "prop" and m not in info["own"])
+                if pc:
+                    m = pc[0]
+                    spec["methods"].append({"name": m, "kind": "prop_ext", "bases": list(bases), "setter": {"pre": [], "post": [_cspec(r, forms) for _ in range(r.randint(0, 1))]}})
+                    info["own"][m] = {"pre": [], "kind": "prop_ext", "snaps": [], "post": []}
             if bases and r.random() < 0.15:
                 # the member is implemented by a plain function that other classes use as well (``put = _put_impl``)
                 cands = sorted(m for b in bases for m in classes[b]["own"] if classes[b]["own"][m]["kind"] == "method" and m not in info["own"])
@@ -192,6 +199,8 @@ def generate(r, tier, prop):
                     mk = [classes[y]["own"][m]["kind"] for y in mro(c) if m in classes[y]["own"]][0]
                     if mk in ("shared", "alias"):
                         mk = "method"
+                    if mk == "prop_ext":
+                        mk = "prop"
                     spec = {"name": "B%d" % i, "base": c, "methods": [{"name": m, "kind": mk, "pre": [{}], "post": []}], "invs": []}
                     if r.random() < 0.5:
                         spec["invs"].append({"check_on": r.choice(["CALL", "SETATTR", "ALL"])})
@@ -342,7 +351,7 @@ def _declared(m, cname, member, touched, accessor="get"):
     if own and accessor == "set":
         o = own[0]
         if o.get("kind") != "prop":
-            return None
+            return None  # (also: prop_ext - the chain of accessors is not the plain case)
         st = o.get("setter")
         unit = "%s.%s.set" % (cname, member)
         pre, post = set(), set()
@@ -361,7 +370,7 @@ def _declared(m, cname, member, touched, accessor="get"):
         return (pre, set(), post)
     if own:
         o = own[0]
-        if o.get("kind", "method") in ("alias", "shared"):
+        if o.get("kind", "method") in ("alias", "shared", "prop_ext"):
             return None
         unit = "%s.%s" % (cname, member)
         pre = {"%s/pre%d" % (unit, k) for k in range(len(o.get("pre", ())))}
@@ -593,7 +602,7 @@ def execute(scn, want):
                 fp_new = m.fingerprint(name)
                 for ms in step["spec"].get("methods", ()):
                     kind_ = ms.get("kind", "method")
-                    if kind_ in ("alias", "shared"):
+                    if kind_ in ("alias", "shared", "prop_ext"):
                         continue
                     exp = _declared(m, name, ms["name"], touched)
                     if exp is None:
